@@ -238,41 +238,41 @@ CHECKS = {
 
 # What the waves of seeded changes added to each check after the text above was written (DESIGN.md section 16).
 ADDENDA = {
-    'C01': "Also: processors that report patched versions whose echo never comes (consistency bookkeeping must not change the schedule); DELETED events followed by further events of the same key (a uid-less object deleted and re-created within its creation second). Objects first seen through the listing (a kind whose name ends in the letters of 'List', with/without uid); resumed watches across a digit rollover of the resource version. Events the watcher has TAKEN from the watch client are never optional at a cancellation (observed in the step in which its `async for` receives them); watch lines cut into network reads in other ways than one line per read.",
+    'C01': "Also: processors that report patched versions whose echo never comes (consistency bookkeeping must not change the schedule); DELETED events followed by further events of the same key (a uid-less object deleted and re-created within its creation second). Objects first seen through the listing (a kind whose name ends in the letters of 'List', with/without uid); resumed watches across a digit rollover of the resource version. Events the watcher has TAKEN from the watch client are never optional at a cancellation (observed in the step in which its `async for` receives them); watch lines cut into network reads in other ways than one line per read. Streams with a 410 re-listing and a change in the gap, in every state of the object's worker.",
     'C02': "Also: sub-handlers nested two levels deep, resume cycles superseded by essential changes (a resume handler succeeds once per process), pure resume "
-           "cycles, ReplicaSets owned by Deployments, a resume handler with sub-handlers superseded in mid-cycle, and a final rule that no progress record is left behind for ever. Several foreign writes before one PATCH (a handler on a view older than the operator's own PATCH counts as the carve-out only after the consistency timeout); parents that call kopf.execute() themselves. One foreign write next to a raw-event handler that patches on every event.",
+           "cycles, ReplicaSets owned by Deployments, a resume handler with sub-handlers superseded in mid-cycle, and a final rule that no progress record is left behind for ever. Several foreign writes before one PATCH (a handler on a view older than the operator's own PATCH counts as the carve-out only after the consistency timeout); parents that call kopf.execute() themselves. One foreign write next to a raw-event handler that patches on every event. A filtered handler that stops matching in mid-cycle and matches again before the cycle closes.",
     'C03': "Also: resume handlers (one retrying / two under asap) in every history with a restart, and the idle-worker tie (the last change arrives in the "
-           "very instant the object's worker retires, all step orders); sub-handlers generated per item of a list in the spec while the list shrinks and grows between the steps. Two deletion handlers / immediate retries with a rule that nothing is released before every deletion handler completed; a change taken back between retries (open finding). Handler ids long enough for two differently named annotations per record; a raw-event handler whose patch changes nothing from the second event on (edits 0-20 s apart, with and without retries).",
+           "very instant the object's worker retires, all step orders); sub-handlers generated per item of a list in the spec while the list shrinks and grows between the steps. Two deletion handlers / immediate retries with a rule that nothing is released before every deletion handler completed; a change taken back between retries (open finding). Handler ids long enough for two differently named annotations per record; a raw-event handler whose patch changes nothing from the second event on (edits 0-20 s apart, with and without retries). Re-listings placed inside the consistency barrier.",
     'C04': "Also: stored-last-handled invariants in the write graph, look-alike annotation keys, a list universe for the diff laws, and the same in vivo: "
            "a closed loop (objects with a spec / empty essence, annotations and status storage, number<->boolean edits, field-narrowed handlers) where "
-           "handlers fire exactly once per essential edit and what they are GIVEN (old/new/diff) is exact and free of own writes. Field-restoring configurations (handlers on metadata.annotations / status) over default, status and both orders of multi storages in the own-writes graph and in the loop; another kind's narrowed handlers. Multi-location storages (both orders) in the closed loop with a handler narrowed to one status field.",
+           "handlers fire exactly once per essential edit and what they are GIVEN (old/new/diff) is exact and free of own writes. Field-restoring configurations (handlers on metadata.annotations / status) over default, status and both orders of multi storages in the own-writes graph and in the loop; another kind's narrowed handlers. Multi-location storages (both orders) in the closed loop with a handler narrowed to one status field. The essence of an object does not depend on which objects the storage served before (an object marked by another operator).",
     'C05': "Also: objects found unhandled by the initial listing, resume handlers only at first sight and never in a creation cycle, explicit "
-           "deleted=False, list-tail edits, and a final rule that no essential difference is taken for nothing. Another kind's narrowed handlers in the same operator; ReplicaSets owned by Deployments. The watch event as it came off the wire vs. the body it is judged by; a kind with a daemon and a raw-event handler whose patch changes nothing, edits / deletion 1-6 s later.",
+           "deleted=False, list-tail edits, and a final rule that no essential difference is taken for nothing. Another kind's narrowed handlers in the same operator; ReplicaSets owned by Deployments. The watch event as it came off the wire vs. the body it is judged by; a kind with a daemon and a raw-event handler whose patch changes nothing, edits / deletion 1-6 s later. An essential foreign edit while a handler runs.",
     'C06': "Also: kopf's finalizer between two foreign ones, histories where nothing happens after a version conflict, a label switched off and on again "
-           "around the release (group completing deviation bound 2), sibling daemons of which one exits on its own, backoff >= timeout. A label-filtered daemon that is slow to leave, relabelled before it has left, then deleted.",
+           "around the release (group completing deviation bound 2), sibling daemons of which one exits on its own, backoff >= timeout. A label-filtered daemon that is slow to leave, relabelled before it has left, then deleted. Zero cancellation timeouts / backoffs; one function decorated for two causes (namesake handlers) with the object deleted in mid-cycle.",
     'C07': "Also: daemons/timers spawned in the instant of the matching event while the barrier is up, a raw-event handler that writes through its patch, "
-           "and a worker idle timeout shorter than the consistency timeout. Resource versions that gain a digit between the foreign write and the own patch; a raw-event handler whose patch follows foreign status edits.",
+           "and a worker idle timeout shorter than the consistency timeout. Resource versions that gain a digit between the foreign write and the own patch; a raw-event handler whose patch follows foreign status edits. Re-listings / reconnects while a change handler still runs.",
     'C08': "Also: the framework's own carry-over (processing.py) in the closed loop with label toggles and a user transformation (patch.fns) that is "
-           "undone later by somebody else, or whose delivering cycle fails as a whole (500) after the conflict; objects without a status stanza. The status subresource as DISCOVERED by the whole operator for kinds whose plurals stand in a prefix relation. Sibling daemons/timers spawned by one event, each delivering a field and a non-idempotent transformation of its own: nothing delivered again, nothing duplicated, everything delivered.",
+           "undone later by somebody else, or whose delivering cycle fails as a whole (500) after the conflict; objects without a status stanza. The status subresource as DISCOVERED by the whole operator for kinds whose plurals stand in a prefix relation. Sibling daemons/timers spawned by one event, each delivering a field and a non-idempotent transformation of its own: nothing delivered again, nothing duplicated, everything delivered. What is accumulated while handling the DELETED event of a gone object goes nowhere (the name re-taken at once; operators without change handlers).",
     'C09': "Also: two spawned handlers per object living and dying separately (asked to stop only with a reason), bounded exit of the operator, "
-           "backoff >= timeout; synchronous (threaded) daemons told to stop more than once. A second object-level reason to stop inside the backoff of the first. The operator pauses / exits while an event of one of two objects is being processed (every step boundary of that instant); 'never cancelled' judged under every non-time deviation.",
+           "backoff >= timeout; synchronous (threaded) daemons told to stop more than once. A second object-level reason to stop inside the backoff of the first. The operator pauses / exits while an event of one of two objects is being processed (every step boundary of that instant); 'never cancelled' judged under every non-time deviation. Daemons that take their time to leave under short pauses; an object that vanishes while its processing is throttled after an error.",
     'C10': "Also: label-filter toggles during a slow run (no self-overlap), zero backoff. Schedules at the scale of days.",
     'C11': "Also: the limits of a parent whose sub-handler keeps failing, background handlers with a running sibling and later events, zero backoff, "
            "downtimes that push the next attempt behind the timeout (fractional, seconds, more than a day), the same on a ReplicaSet owned by a Deployment. A deletion handler taking over from a handler that waits for its retry. A timer with idle= whose retries are postponed by essential edits (per-cycle limits).",
-    'C12': "Also: attempts that take time before they fail (the pause counts from the failure); a login handler that re-offers credentials invalidated earlier. Nothing is sent on a session after its 401 came back (issue times). error_delays as a re-iterable that is no Collection, and as a list.",
+    'C12': "Also: attempts that take time before they fail (the pause counts from the failure); a login handler that re-offers credentials invalidated earlier. Nothing is sent on a session after its 401 came back (issue times). error_delays as a re-iterable that is no Collection, and as a list. Connections dropped after the request was sent / reset by the peer.",
     'C13': "Also: pauses only for live blockers and resumes only without them (every opening/closing of a watch is judged), operators with non-default "
-           "lifetimes against records that state none, a failing keep-alive around a slow graceful exit (the record stays withdrawn), lifetimes of a day and more. A keep-alive renewal failing for good (the operator has to go down); foreign records with UTC offsets.",
-    'C14': "Also: permanently failing handlers, explicit deleted=False, lingering deletions, slow resume handlers with re-listings during their run. Objects with an empty essence. One PATCH of the new process rejected by the server (every one in turn): a rejected closing write does not repeat the resume handlers.",
+           "lifetimes against records that state none, a failing keep-alive around a slow graceful exit (the record stays withdrawn), lifetimes of a day and more. A keep-alive renewal failing for good (the operator has to go down); foreign records with UTC offsets. One instance per daemon across a pause shorter than the daemon's exit.",
+    'C14': "Also: permanently failing handlers, explicit deleted=False, lingering deletions, slow resume handlers with re-listings during their run. Objects with an empty essence. One PATCH of the new process rejected by the server (every one in turn): a rejected closing write does not repeat the resume handlers. A LIST / WATCH request failing on the connection level (the first LIST of the new process among them).",
     'C15': "Also: two-key label/annotation criteria (every ordered pair of criterion kinds x key states x handler family, selection and prematch) and one "
-           "function stacked twice under one id with different criteria. Field criteria on a status field through falsy values in the closed loop; 70 resource-selector spellings against 7 resources. Objects that used to match and do not any more keep no finalizer (with / without daemons, left alone / deleted / restart).",
-    'C16': "Also: empty and odd essences, look-alike user annotations, and after every operation: the essence contains no own record and all user data. One long-lived storage instance serving objects of both kinds (plain, ReplicaSet of a Deployment) in every order vs. a fresh instance per operation.",
-    'C17': "Also: empty-mapping results, a handled kind without an index next to an indexed one (both visiting orders), same-named objects of two kinds. Equal values from different objects; the index under test without a sibling index. Bursts: events of one object queue up behind a slow raw-event handler; every one of them is indexed before its handlers look at the index.",
-    'C18': "Also: number<->boolean swaps, other spellings of the DELETE opt-in, strict standard-alphabet base64 decoding of the returned patch, one transformation function requested twice. Field criteria of admission handlers (the reviewed object decides); mutating handlers on DELETE reviews.",
+           "function stacked twice under one id with different criteria. Field criteria on a status field through falsy values in the closed loop; 70 resource-selector spellings against 7 resources. Objects that used to match and do not any more keep no finalizer (with / without daemons, left alone / deleted / restart). Sub-handlers declared with criteria.",
+    'C16': "Also: empty and odd essences, look-alike user annotations, and after every operation: the essence contains no own record and all user data. One long-lived storage instance serving objects of both kinds (plain, ReplicaSet of a Deployment) in every order vs. a fresh instance per operation. Records kept directly under status (flat fields): the user's status fields stay in the essence.",
+    'C17': "Also: empty-mapping results, a handled kind without an index next to an indexed one (both visiting orders), same-named objects of two kinds. Equal values from different objects; the index under test without a sibling index. Bursts: events of one object queue up behind a slow raw-event handler; every one of them is indexed before its handlers look at the index. One indexed kind served in two namespaces.",
+    'C18': "Also: number<->boolean swaps, other spellings of the DELETE opt-in, strict standard-alphabet base64 decoding of the returned patch, one transformation function requested twice. Field criteria of admission handlers (the reviewed object decides); mutating handlers on DELETE reviews. Values that relocate (renamed fields, reordered lists).",
     'C19': "Also: resource versions that gain a digit, namespaced mandatory peering against namespace removal, a cluster-scoped kind, and group (c): the "
            "whole operator (namespaces=['n*'], by-name and by-category handlers) while CRDs, versions, categories and namespaces come and go in the fake "
-           "cluster - through the real observation and orchestration code. Unknown ERROR events in the stream of any served pair (peering included) must surface; list/watch requests throttled (429) beyond the client's retries; a watch that returns silently. Watch lines cut into network reads in other ways than one line per read (newline alone / leading, mid-line cuts, 3-byte reads).",
+           "cluster - through the real observation and orchestration code. Unknown ERROR events in the stream of any served pair (peering included) must surface; list/watch requests throttled (429) beyond the client's retries; a watch that returns silently. Watch lines cut into network reads in other ways than one line per read (newline alone / leading, mid-line cuts, 3-byte reads). A CRD that is established (and listed by discovery) only after its ADDED event.",
     'C20': "Also: more objects than workers at the stop (nothing is worked off afterwards), synchronous (threaded) startup handlers with the stop before, "
-           "during and after their run (threads emulated as uncancellable futures with a declared virtual duration), daemons without a cancellation timeout under failures of essential tasks. The daemon's object deleted shortly before the stop / cancellation / failure.",
+           "during and after their run (threads emulated as uncancellable futures with a declared virtual duration), daemons without a cancellation timeout under failures of essential tasks. The daemon's object deleted shortly before the stop / cancellation / failure. A stop / failure while the answer to a keep-alive PATCH is in flight.",
 }
 
 
